@@ -7,6 +7,8 @@ Oracle (independent of the model): RFC 9110 section 14.1.2 computed directly in 
 with an independent multipart/byteranges splitter.
 
 case = {"size": int, "head": bool, "range": hex | None}; the file's byte i is (i*7+3) % 251;
+      optional "disk": int - the resource is a File SUBCLASS whose getFileSize() / openForReading() serve a representation of
+      "size" bytes that is not the file on disk (which has "disk" bytes): envelope-stripping, gunzip-on-the-fly, ...
   or  {"seq": [{"size": int, "v": int, "head": bool, "range": hex | None}, ...]}: several requests against ONE static.File
       object, the file rewritten (byte i = (i*7+3+v) % 251) before each.
 """
@@ -71,6 +73,21 @@ def _serve(case, f=None):
                 if n > limit:
                     raise ProducerStuck()
 
+    if f is None and case.get("disk") is not None:
+        import io
+
+        rep = content(case["size"], case.get("v", 0))
+
+        class Represented(static.File):
+            """the served representation is not the bytes on disk: both hooks File documents for that are overridden"""
+
+            def getFileSize(self):
+                return len(rep)
+
+            def openForReading(self):
+                return io.BytesIO(rep)
+
+        f = Represented(_path(case["disk"]))
     if f is None:
         f = static.File(_path(case["size"]))
     req = Req([b""])
@@ -368,6 +385,20 @@ def gen(rng, tier):
             pos = rng.randrange(len(hdr) + 1)
             hdr = hdr[:pos] + bytes([rng.choice(b"+-_ ,=x\t\x0c0")]) + hdr[pos:]
         cases.append(mk(size, hdr, rng.random() < 0.05))
+    # File subclasses whose representation length differs from st_size (shorter and longer): every total and every
+    # offset must come from getFileSize()
+    for size, disk in ((64, 96), (64, 20), (10, 0), (1, 500), (300, 299), (300, 301), (0, 40), (40, 4096)):
+        for h in (None, b"bytes=0-", b"bytes=-5", b"bytes=59-63", b"bytes=5-", b"bytes=0-0,-1", b"bytes=2-3,10-20,-4", b"bytes=%d-" % size,
+                  b"bytes=%d-%d" % (max(size - 1, 0), size + 50), b"bytes=-%d" % (size + 10), b"bytes=%d-" % disk, b"bytes=0-%d" % max(disk - 1, 0)):
+            for head in (False, True) if h is None else (False,):
+                cases.append({"size": size, "disk": disk, "head": head, "range": None if h is None else h.hex()})
+    for _ in range(120 if tier == "quick" else 2000):
+        size = rng.choice([0, 1, 10, 64, 255, 1000])
+        disk = rng.choice([0, 1, size // 2, size + 1, size + 32, 2 * size + 7, 4096])
+        if disk == size:
+            disk += 3
+        specs = [_spec(rng, size, False) for _ in range(rng.choice([1, 1, 2, 3]))]
+        cases.append({"size": size, "disk": disk, "head": False, "range": (b"bytes=" + b",".join(specs)).hex()})
     # histories: several requests against the same File object with the file rewritten in between
     seq_ranges = [None, b"bytes=-3", b"bytes=-1000", b"bytes=0-", b"bytes=2-", b"bytes=0-0", b"bytes=5-9", b"bytes=0-1,4-", b"bytes=-2,0-0",
                   b"bytes=20-", b"bytes=10-30", b"bytes=7-7,9-"]
@@ -416,6 +447,9 @@ def corpus():
         mk(64, b"bytes=0-9,20-29,60-70,64-,70-80"),
         mk(65537, b"bytes=1-65536"), mk(65537, b"bytes=0-0,-65537,65536-"),
         mk(65536, b"bytes=0-65431,0-9"),     # a part boundary pushes the multi-range producer's buffer count past 64 KiB
+        # a File subclass serving a 64-byte representation of a 96-byte file (getFileSize / openForReading overridden)
+        {"size": 64, "disk": 96, "head": False, "range": b"bytes=59-63".hex()},
+        {"size": 64, "disk": 20, "head": False, "range": b"bytes=0-1,-2".hex()},
         # the same File object serves the file before and after it was rewritten (grown, shrunk, same size other bytes)
         {"seq": [{"size": 10, "v": 0, "head": False, "range": b"bytes=-3".hex()}, {"size": 20, "v": 0, "head": False, "range": b"bytes=-3".hex()},
                  {"size": 4, "v": 1, "head": False, "range": b"bytes=0-".hex()}, {"size": 4, "v": 2, "head": False, "range": None}]},
@@ -459,7 +493,7 @@ def _hist(case, obs):
 def describe(case):
     if "seq" in case:
         return {"seq": [describe(st) | {"v": st["v"]} for st in case["seq"]]}
-    return {"size": case["size"], "head": case["head"],
+    return ({"disk": case["disk"]} if case.get("disk") is not None else {}) | {"size": case["size"], "head": case["head"],
             "range": None if case["range"] is None else bytes.fromhex(case["range"]).decode("latin-1")}
 
 
